@@ -20,7 +20,7 @@ MANIFEST = {
 
 
 def gen_counts(tier):
-    return (2500, 1200) if tier == "thorough" else (700, 0)
+    return (2500, 1200) if tier == "thorough" else (400, 0)
 
 
 def check(run):
